@@ -2191,6 +2191,29 @@ func init() {
 					if hung {
 						r["outcome"] = "hang"
 					}
+				case "lose-local", "lose-local-cas":
+					// the local tier of this machine loses its entries while the remote tier keeps them (the state after a kill
+					// between the upload and the local rename, after `grog clean`, after a lost disk): every local blob and
+					// ("lose-local" only; "lose-local-cas" keeps it) the local copy of the target's result
+					saved := config.Global.Root
+					config.Global.Root = filepath.Join(env.dir, "root-"+mach)
+					ldir := config.Global.GetWorkspaceCacheDirectory()
+					config.Global.Root = saved
+					lost := 0
+					if ents, e := os.ReadDir(filepath.Join(ldir, "cas")); e == nil {
+						for _, en := range ents {
+							if os.Remove(filepath.Join(ldir, "cas", en.Name())) == nil {
+								lost++
+							}
+						}
+					}
+					if op.kind == "lose-local" {
+						if os.Remove(filepath.Join(ldir, "target", t.key)) == nil {
+							lost++
+						}
+					}
+					r["lost"] = lost
+					r["outcome"] = "ok"
 				case "taint", "untaint", "tainted":
 					// the taint cache is built over the same (two-tier) backend as in cmds/build.go and cmds/taint.go
 					tcache := caching.NewTaintCache(backend)
